@@ -1,1 +1,91 @@
-/- C08 — property theorems (to be written) -/
+/-
+  C08 — splitting partitions a fiber losslessly at exactly the specified boundaries.
+  Property theorems only; helper lemmas live in FtProofs/Lemmas/Split*.lean.
+
+  Reading guide.  `splitUniformIter`, `splitNonUniformIter`, `splitEqualIter`, `splitUnEqualIter`
+  (FtModel/Split.lean) mirror the Python loops; `uSpec` / `nuSpec` / `chunkParts` are the
+  declarative results.  `elems` are the presented (non-empty) elements of the fiber in storage
+  order, `[as, ae)` its active range.  `none` = the implementation raises.
+-/
+import FtProofs.Lemmas.SplitUniform
+import FtProofs.Lemmas.SplitNonUniform
+import FtProofs.Lemmas.SplitSpec
+set_option linter.unusedSectionVars false
+set_option linter.unusedSimpArgs false
+set_option linter.unusedVariables false
+namespace Ft
+
+section
+variable {π : Type}
+
+/-! ### the splitters compute their specifications -/
+
+/-- **Uniform split.**  For every positive step, non-negative halos, non-empty active range and
+    ascending fiber, the two nested loops with their lookup-or-append and `search_start` shortcut
+    return: for each multiple `P` of `step` whose interval `[P, P+step)` meets the active range,
+    in ascending order, the presented elements of `[P-pre, P+step+post)` inside the halo-extended
+    active range, in order, payloads untouched; empty partitions are not created; each lower's
+    active range is `[max P as, min (P+step) ae)`; `relativeCoords` subtracts `P`. -/
+theorem uniform_spec (step pre post as ae : Int) (rel : Bool) (elems : Fib Int π)
+    (hstep : 0 < step) (hact : as < ae) (hpre : 0 ≤ pre) (hpost : 0 ≤ post) (hsorted : Sorted elems) :
+    splitUniformIter step pre post as ae rel elems = some (uSpec step pre post as ae rel elems) :=
+  splitUniformIter_eq step pre post as ae hstep hact hpre hpost rel elems hsorted
+
+example : splitUniformIter 2 1 1 0 6 false [((1 : Int), (10 : Int)), (2, 20), (5, 50)] =
+    some [⟨0, [(1, 10), (2, 20)], 0, 2⟩, ⟨2, [(1, 10), (2, 20)], 2, 4⟩, ⟨4, [(5, 50)], 4, 6⟩] := by
+  decide
+
+/-- **Non-uniform split** — partial: proved for ascending boundary lists all of whose boundaries lie
+    below the active end.  (With a boundary at/after the active end the code raises `ValueError`
+    for an element in that boundary's pre-halo, see `nonuniform_crash_witness`.)  Partition `i` is
+    `[S[i], S[i+1])`, the last one unbounded; elements below the first boundary belong to no partition. -/
+theorem nonuniform_spec_partial (S : List Int) (pre post as ae : Int) (rel : Bool) (elems : Fib Int π)
+    (hS : S.Pairwise (· < ·)) (hpre : 0 ≤ pre) (hpost : 0 ≤ post) (hsorted : Sorted elems)
+    (hin : ∀ s ∈ S, s < ae) :
+    splitNonUniformIter S pre post as ae rel elems = some (nuSpec S pre post as ae rel elems) :=
+  splitNonUniformIter_eq S pre post as ae hS rel elems hsorted
+    (fun y _ hw h0 => cover_of_lt_ae S pre post as ae hS hin hpre hpost y.1 hw h0)
+
+example : splitNonUniformIter [0, 3] 1 0 0 6 true [((1 : Int), (10 : Int)), (2, 20), (5, 50)] =
+    some [⟨0, [(1, 10), (2, 20)], 0, 3⟩, ⟨3, [(-1, 20), (2, 50)], 3, 6⟩] := by
+  decide
+
+/-- the excluded class is real: `Fiber([3],[5]).splitNonUniform([4], pre_halo=1)` (active range
+    `[0,4)`) raises in the model exactly as in the implementation -/
+theorem nonuniform_crash_witness :
+    splitNonUniformIter [4] 1 0 0 4 false [((3 : Int), (5 : Int))] = none := by decide
+
+/-- the same statement under the weakest hypothesis the proof needs: every element inside the
+    window that reaches the first boundary's pre-halo belongs to some partition -/
+theorem nonuniform_spec_of_cover (S : List Int) (pre post as ae : Int) (rel : Bool) (elems : Fib Int π)
+    (hS : S.Pairwise (· < ·)) (hsorted : Sorted elems)
+    (hcover : ∀ y ∈ elems, inWindow as ae pre post y.1 = true →
+      (∃ s0, S[0]? = some s0 ∧ s0 - pre ≤ y.1) → ∃ i, nuMemb S pre post as ae i y.1 = true) :
+    splitNonUniformIter S pre post as ae rel elems = some (nuSpec S pre post as ae rel elems) :=
+  splitNonUniformIter_eq S pre post as ae hS rel elems hsorted hcover
+
+/-- **splitEqual**: never raises; it is the non-uniform split at the boundaries `active start,
+    coordinate of every step-th active element` -/
+theorem equal_spec (step pre post as ae : Int) (rel : Bool) (elems : Fib Int π)
+    (hact : as < ae) (hpre : 0 ≤ pre) (hpost : 0 ≤ post) (hsorted : Sorted elems) :
+    splitEqualIter step pre post as ae rel elems =
+      some (nuSpec (equalBounds step as (iterActive as ae elems)) pre post as ae rel elems) := by
+  obtain ⟨h1, h2⟩ := bounds_ok as ae elems hsorted hact _ (equalBounds_sublist step as (iterActive as ae elems))
+  exact nonuniform_spec_partial _ pre post as ae rel elems h1 hpre hpost hsorted h2
+
+example : splitEqualIter 2 0 0 0 8 false [((1 : Int), (10 : Int)), (2, 20), (5, 50)] =
+    some [⟨0, [(1, 10), (2, 20)], 0, 5⟩, ⟨5, [(5, 50)], 5, 8⟩] := by decide
+
+/-- **splitUnEqual**: never raises; non-uniform split at the boundaries selected by the sizes -/
+theorem unequal_spec (sizes : List Int) (pre post as ae : Int) (rel : Bool) (elems : Fib Int π)
+    (hact : as < ae) (hpre : 0 ≤ pre) (hpost : 0 ≤ post) (hsorted : Sorted elems) :
+    splitUnEqualIter sizes pre post as ae rel elems =
+      some (nuSpec (unequalBounds sizes as (iterActive as ae elems)) pre post as ae rel elems) := by
+  obtain ⟨h1, h2⟩ := bounds_ok as ae elems hsorted hact _ (unequalBounds_sublist sizes as (iterActive as ae elems))
+  exact nonuniform_spec_partial _ pre post as ae rel elems h1 hpre hpost hsorted h2
+
+example : splitUnEqualIter [1] 0 0 0 8 false [((1 : Int), (10 : Int)), (2, 20), (5, 50)] =
+    some [⟨0, [(1, 10)], 0, 2⟩, ⟨2, [(2, 20), (5, 50)], 2, 8⟩] := by decide
+
+end
+end Ft
